@@ -11,7 +11,7 @@ PROPERTY = "C19"
 LEVEL = "exploration"
 TOLERANCE = "rel 1e-5; rel 1e-4 when |log10 k| >= 6 (float32 mapper)"
 RULE = (
-    "Hypothesis-generated (small spec, transformation) pairs; specs as in C17 (1-2 Einsums, 2-3 memory levels, finite "
+    "Hypothesis-generated (small spec, transformation) pairs, the three transformation kinds and the eight k values dealt evenly over the cases; specs as in C17 (1-2 Einsums, 2-3 memory levels, finite "
     "throughputs, leak, GLB sized around the tensors), zero tolerances. Transformations: (energy) every per-action energy "
     "and leak power x k, k in {2, 0.5, 8, 1024, 3, 0.1, 1e6, 1e-6}, metrics ENERGY / ENERGY|LATENCY / EDP: optimal energy "
     "(front minimum, EDP optimum) x k, front-minimum latency unchanged; (throughput) every finite throughput x k, metrics "
@@ -164,7 +164,7 @@ def check(desc, col):
         col.label("one-einsum:tight" if MM.same(y, up, rel) else "one-einsum:moved")
 
 
-N = {"quick": 48, "thorough": 480}
+N = {"quick": 36, "thorough": 480}
 KINDS = ["energy", "throughput", "instances"]
 
 
